@@ -36,6 +36,7 @@ Apply1(S, act) ==
   CASE act.a = "start"          -> EnvStart(S)
     [] act.a = "plan"           -> [S EXCEPT !.dialPlan = act.plan]
     [] act.a = "connect"        -> EnvConnect(S)
+    [] act.a = "addapp"         -> EnvAddApp(S, act.app)
     [] act.a = "feed"           -> EnvFeed(S, act.c, MsgsFromJson(act.ms))
     [] act.a = "garbage"        -> EnvFeed(S, act.c, <<[cmd |-> "GARBAGE"]>>)
     [] act.a = "frag"           -> [EnvFeed(S, act.c, IF act.i < act.n THEN <<>> ELSE <<FromJson(act.m)>>) EXCEPT !.frag[act.c] = act.i < act.n]
